@@ -143,6 +143,12 @@ def faults():
     for col, key in (("cat", "a"), ("other", "x"), ("other", "y")):
         add("category-with-placeholder", {"PLACEHOLDER_INVALID"}, set_at(B, (col, "HED", key), "Label/#"))
         add("category-with-placeholder", {"PLACEHOLDER_INVALID"}, set_at(B, (col, "HED", key), "(Red, Label/#)"))
+    # 3a a value column without '#' that holds a reference nobody else uses
+    for ref_text in ("({kind}, Label/Fixed)", "{kind}", "Red, {kind}"):
+        add("value-column-no-placeholder", {"PLACEHOLDER_INVALID"} | TYPE_CODES,
+            {"kind": {"HED": {"go": "Red", "stop": "Blue"}}, "amount": {"HED": ref_text}})
+        add("value-column-no-placeholder", {"PLACEHOLDER_INVALID"} | TYPE_CODES,
+            {"amount": {"HED": ref_text}, "kind": {"HED": {"go": "Red", "stop": "Blue"}}, "ign": {"Description": "x"}})
     # 3b / 4b the same faults in an entry that also holds a definition (definitions themselves are not counted)
     for d in ("(Definition/Dd, (Red))", "(Definition/Dv/#, (Label/#))"):
         add("value-column-two-placeholders", {"PLACEHOLDER_INVALID"}, set_at(B, ("val", "HED"), d + ", Label/#, Description/#"))
@@ -209,6 +215,10 @@ def valid_sidecars():
     yield dict(BASE, defs=defs)
     yield dict(set_at(set_at(BASE, ("val", "HED"), "Def/Dv/#"), ("cat", "HED", "a"), "Def/Dd, (Def/Dv/x, Red)"), defs=defs)
     yield dict([("defs", defs)] + list(BASE.items()))
+    # a definitions column whose entries hold different numbers of definitions
+    yield {"defs": {"HED": {"first": "(Definition/Aaa, (Red)), (Definition/Bbb, (Blue))", "second": "(Definition/Ccc, (Green))",
+                            "third": "(Definition/Ddd/#, (Label/#)), (Definition/Eee, (Square)), (Definition/Fff)"}},
+           "ev": {"HED": {"x": "Def/Aaa, (Def/Ccc, Def/Ddd/v)", "y": "Def/Eee"}}}
     # a referenced column whose name has capitals and whose entries are complete only where they are spliced in
     for name in ("Phase", "trial_Phase2", "PHASE", "phase"):
         yield {"defs": defs, name: {"HED": {"start": "Onset", "end": "Offset"}},
